@@ -8,15 +8,23 @@
    event b: [size, method, rk, ra, rb, ifr, im, inm, ius, ims,
              status, body, clen, crk, crs, cre, crn, mp]
 
-   The verdict is total and does not stop at the first failure: every event is judged,
-   failing (position, clause) pairs are collected (at most MaxFails are kept; nfail counts
-   all) and printed through TraceBatch!Verdict as <<consumed, first clause, <<nfail, fails>>>>. *)
+   The verdict is total and does not stop at the first failure: every event is judged and
+   the failures are aggregated PER CLAUSE as <<clause, count, up to MaxPos positions>>, so a
+   rare clause can never be crowded out by a frequent one.  TraceBatch!Verdict prints
+   <<consumed, first failing clause, <<number of failing events, aggregated failures>>>>. *)
 EXTENDS StaticServe, TraceBatch
 
 VARIABLES tid, l, fails, nfail
 tvars == <<tid, l, fails, nfail>>
 
-MaxFails == 40
+MaxPos == 4
+
+Find(fs, c) == LET I == {i \in 1..Len(fs) : fs[i][1] = c} IN IF I = {} THEN 0 ELSE CHOOSE i \in I : TRUE
+Record(fs, c, pos) ==
+    IF c = "" THEN fs
+    ELSE LET i == Find(fs, c) IN
+         IF i = 0 THEN Append(fs, <<c, 1, <<pos>>>>)
+         ELSE [fs EXCEPT ![i] = <<c, @[2] + 1, IF Len(@[3]) < MaxPos THEN Append(@[3], pos) ELSE @[3]>>]
 
 ReqA(c, e) == [segs |-> e.segs, follow |-> c.follow, show |-> c.show, ae |-> c.ae]
 RespA(e) == [status |-> e.status, kind |-> e.kind, marker |-> e.marker, listing |-> SeqToSet(e.listing)]
@@ -37,13 +45,13 @@ TInit ==
 TNext ==
     /\ l < NEvents(tid)
     /\ LET c == Judge(Cfg(tid), Events(tid)[l + 1])
-           f2 == IF c # "" /\ Len(fails) < MaxFails THEN Append(fails, <<l + 1, c>>) ELSE fails
+           f2 == Record(fails, c, l + 1)
            n2 == IF c # "" THEN nfail + 1 ELSE nfail
        IN /\ l' = l + 1
           /\ fails' = f2
           /\ nfail' = n2
           /\ UNCHANGED tid
-          /\ Verdict(tid, l + 1, IF f2 = <<>> THEN "" ELSE f2[1][2], <<n2, f2>>)
+          /\ Verdict(tid, l + 1, IF f2 = <<>> THEN "" ELSE f2[1][1], <<n2, f2>>)
 
 TSpec == TInit /\ [][TNext]_tvars
 =============================================================================
